@@ -398,3 +398,112 @@ def shrink_hist(desc):
         yield dict(desc, hist=h[:k] + h[k + 1:])
     if desc.get("order_seed") is not None:
         yield dict(desc, order_seed=None)
+
+
+# ---------------------------------------------------------------------------
+# results handed out by queries are CALLER-OWNED (round 4): mutate them, then ask again
+# ---------------------------------------------------------------------------
+#: queries whose result IS the internal child list in the clean code (live view; documented for `children`)
+ALIAS_OK = {"children", "get_children()", "get_children(ANY_KIND)", "get_siblings(add_self=True)",
+            "get_siblings(add_self=True,any_kind=True)", "tree.children", "tree.get_toplevel_nodes"}
+
+
+def poison_results(tree, typed, kinds=("a", "zz")):
+    """Every list a relationship query hands back is either the documented live child list (ALIAS_OK) or owned by
+    the caller.  Caller-owned results are MUTATED here (a foreign node is inserted at both ends, an element deleted);
+    afterwards the tree must be unchanged, and the caller re-runs the whole query battery on this and on another tree.
+    Returns an oracle failure or None."""
+    root = tree._root
+    nodes = B.all_nodes(root)
+    ftree = type(tree)("foreign")
+    foreign = ftree.add("F", kind="f") if typed else ftree.add("F")
+
+    def snapshot():
+        return [(id(n), None if n._children is None else [id(c) for c in n._children], id(n._parent)) for n in [root] + nodes]
+
+    def internal(r):
+        return any(r is n._children for n in [root] + nodes)
+
+    before = snapshot()
+
+    def handle(name, thunk, who):
+        try:
+            r = thunk()
+        except Exception:  # noqa: BLE001 - errors are the business of the query battery
+            return None
+        if snapshot() != before:
+            return f"{name} of {who} changed the tree (a read-only query)"
+        if not isinstance(r, list):
+            return None
+        if internal(r):
+            if name not in ALIAS_OK:
+                return f"{name} of {who} returned an internal child list (the caller owns the result of this query)"
+            return None
+        alien = [x for x in r if getattr(x, "_tree", None) is not tree]
+        if alien:
+            # a list that an earlier caller mutated came back: one shared object is handed out to everybody.  The
+            # foreign entries are taken out again so that the shared object cannot grow without bound during a run.
+            r[:] = [x for x in r if getattr(x, "_tree", None) is tree]
+            return (f"{name} of {who} returned a list that contains {len(alien)} node(s) of ANOTHER tree: the list object is shared "
+                    f"with an earlier caller who modified the result it had received")
+        r.append(foreign)
+        r.insert(0, foreign)
+        if len(r) > 2:
+            del r[1]
+        if snapshot() != before:
+            return f"mutating the list returned by {name} of {who} changed the tree"
+        return None
+
+    AK = H.ANY_KIND
+    for i, n in enumerate(nodes):
+        who = f"node {i + 1} (pre-order)"
+        qs = [("children", lambda: n.children),
+              ("get_parent_list()", lambda: n.get_parent_list()),
+              ("get_parent_list(add_self=True,bottom_up=True)", lambda: n.get_parent_list(add_self=True, bottom_up=True))]
+        if typed:
+            qs += [("get_children(ANY_KIND)", lambda: n.get_children(AK))]
+            for k in sorted({c._kind for c in (n._children or [])} | set(kinds)):
+                qs += [(f"get_children({k!r})", lambda k=k: n.get_children(k))]
+            qs += [("get_siblings(add_self=False)", lambda: n.get_siblings()),
+                   ("get_siblings(add_self=True)", lambda: n.get_siblings(add_self=True)),
+                   ("get_siblings(add_self=False,any_kind=True)", lambda: n.get_siblings(any_kind=True)),
+                   ("get_siblings(add_self=True,any_kind=True)", lambda: n.get_siblings(add_self=True, any_kind=True))]
+        else:
+            qs += [("get_children()", lambda: n.get_children()),
+                   ("get_siblings(add_self=False)", lambda: n.get_siblings()),
+                   ("get_siblings(add_self=True)", lambda: n.get_siblings(add_self=True))]
+        qs += [("get_clones(add_self=True)", lambda: n.get_clones(add_self=True))]
+        for name, thunk in qs:
+            f = handle(name, thunk, who)
+            if f:
+                return f
+    for name, thunk in [("tree.children", lambda: tree.children), ("tree.get_toplevel_nodes", lambda: tree.get_toplevel_nodes()),
+                        ("tree.find_all(match)", lambda: tree.find_all(match=lambda n: True))]:
+        f = handle(name, thunk, "the tree")
+        if f:
+            return f
+    return None
+
+
+def replace_same_length(shape_nodes, typed):
+    """aimed histories that change a child list WITHOUT changing its length (used with probe=[0]: one query before the
+    first op, none in between): remove a child + add a new one, move one out + another in, sort"""
+    flat = []
+
+    def go(nodes, p):
+        for pos, (lbl, kind, did, kids) in enumerate(nodes):
+            i = len(flat)
+            flat.append((p, pos, kind))
+            go(kids, i)
+
+    go(shape_nodes, -1)
+    for i, (p, pos, kind) in enumerate(flat):
+        for before in (None, True):
+            yield [["remove", i], ["add", p, 0, kind, f"r{i}", before]]
+        if not typed:
+            for j, (q, _, _) in enumerate(flat):
+                if q != p and q != i and j != p:
+                    yield [["move", i, q, None], ["move", j, p, True]]
+    for p in sorted({q for q, _, _ in flat}):
+        yield [["sort", p, True, False]]
+        yield [["sort", p, False, False], ["sort", p, True, False]]
